@@ -25,6 +25,7 @@ theorem step_eq (w : World) (op : Op) : step w op = (stepR w op).2 := by
   case nbrInit fd => rcases netbufReadInit w fd with ⟨_ | _, _⟩ <;> rfl
   case nbwInit fd => rcases netbufWriteInit w fd with ⟨_ | _, _⟩ <;> rfl
   case http a l s => rcases httpRequest w a l s with ⟨_ | _, _⟩ <;> rfl
+  case https a l s hl => rcases httpsRequest w a l s hl with ⟨_ | _, _⟩ <;> rfl
   case readCancel c => cases readOwned w c <;> cases networkReadCancel w c <;> rfl
   case writeCancel c => cases writeOwned w c <;> cases networkWriteCancel w c <;> rfl
   case connectCancel c => cases connOwned w c <;> cases networkConnectCancel w c <;> rfl
@@ -286,8 +287,9 @@ theorem refs_writer_cons (h : Refs t) (x : Writer) (hx : x.curr = none) : Refs {
   obtain ⟨h1, h2, h3⟩ := refs_iff.1 h
   exact refs_iff.2 ⟨h1, h2.consNone (by unfold ownW; rw [hx]; rfl), h3⟩
 
-theorem refs_http_cons (h : Refs t) (x hd c : Nat) (k : Conn) (hk : k.cookie = c) (hc : c ∉ t.conns.map (·.cookie)) :
-    Refs { t with https := ⟨x, hd, some c⟩ :: t.https, conns := k :: t.conns } := by
+theorem refs_http_cons (h : Refs t) (x hd c : Nat) (ho : Option Nat) (k : Conn) (hk : k.cookie = c)
+    (hc : c ∉ t.conns.map (·.cookie)) :
+    Refs { t with https := ⟨x, hd, some c, ho⟩ :: t.https, conns := k :: t.conns } := by
   obtain ⟨h1, h2, h3⟩ := refs_iff.1 h
   exact refs_iff.2 ⟨h1, h2, Link.consSome _ okH_key h3 rfl hc hk⟩
 
@@ -461,7 +463,22 @@ theorem good_http (w : World) (addrs : List AddrOutcome) (headlen s : Nat) (h : 
     rw [ht] at hnd'
     simp only [List.map_cons, List.nodup_cons, connEntry_cookie] at hnd'
     rw [ht]
-    exact refs_http_cons h.refs x hd c _ (connEntry_cookie _ _ _ _) hnd'.1
+    exact refs_http_cons h.refs x hd c none _ (connEntry_cookie _ _ _ _) hnd'.1
+
+theorem good_https (w : World) (addrs : List AddrOutcome) (headlen s hostlen : Nat) (h : Inv w) :
+    Good w (stepR w (.https addrs headlen s hostlen)) := by
+  obtain ⟨hi, hs, hn, hsome, _⟩ := httpsRequest_spec w addrs headlen s hostlen h.toInv0
+  show Good w (ofOpt (httpsRequest w addrs headlen s hostlen))
+  refine good_alloc (httpsRequest w addrs headlen s hostlen) hi ?_ hs
+  cases ho : (httpsRequest w addrs headlen s hostlen).1 with
+  | none => rw [(hn ho).tables]; exact h.refs
+  | some x =>
+    obtain ⟨sh, hd, c, _, ht, _⟩ := hsome x ho
+    have hnd' := (tables_nodup hi.owns.nodupE).2.2.2.1
+    rw [ht] at hnd'
+    simp only [List.map_cons, List.nodup_cons, connEntry_cookie] at hnd'
+    rw [ht]
+    exact refs_http_cons h.refs x hd c (some sh) _ (connEntry_cookie _ _ _ _) hnd'.1
 
 theorem good_readCancel (w : World) (c : Nat) (h : Inv w) : Good w (stepR w (.readCancel c)) := by
   simp only [stepR]
@@ -757,6 +774,7 @@ theorem good_stepR (w : World) (op : Op) (h : Inv w) : Good w (stepR w op) := by
   | nbwFree x => exact good_nbwFree w x h
   | http a l s => exact good_http w a l s h
   | httpCancel c => exact good_httpCancel w c h
+  | https a l s hl => exact good_https w a l s hl h
 
 end Run
 
